@@ -105,6 +105,14 @@ def configs(tier):
                         if tmax == 'sym' and not sir:
                             c['tmax_within'] = 2.5     # a symbolic horizon of at most 3 steps (SIS never dies out on its own)
                         out.append(c)
+    # discrete_SIR with a user recovery test that may keep a node infectious for several steps (engine-chosen answers)
+    for g in ['K2+K1', 'P3'] + (['K3', 'P4'] if tier == 'thorough' else []):
+        for I0, R0 in graphs.automorphism_reduced_ics(g):
+            if len(R0) > 1 or (tier == 'quick' and len(I0) > 1):
+                continue
+            for full in (False, True):
+                out.append(dict(entry='discrete_SIR', graph=g, I0=I0, R0=R0, full=full, tmax='inf', test_recovery=True, max_keep=2,
+                                tags=[g, 'full' if full else 'plain', 'test_recovery'] + (['R0'] if R0 else [])))
     from checks import C03, C15
     for c in C03.configs(tier):
         if c['mode'] == 'plain' and c['graph'] in ('P3', 'D:3:01,12,20') and c['spec'] in ('SIS', 'SEIR', 'compete'):
